@@ -13,7 +13,17 @@ let parse_op t : op =
   | "f" -> OFlip (next_nat t)
   | "rs" -> let p = next_nat t in let v = next_bool t in ORefSet (p, v)
   | "rc" -> let p = next_nat t in let q = next_nat t in ORefCopy (p, q)
+  | "rcs" -> let p = next_nat t in let q = next_nat t in ORefCopySelf (p, q)
   | "rf" -> ORefFlip (next_nat t)
+  | "ands" -> OAndSelf
+  | "ors" -> OOrSelf
+  | "xors" -> OXorSelf
+  | "cstr" ->
+      let s = next_nlist t in
+      let counted = next_bool t in
+      let zero = next_n t in
+      let one = next_n t in
+      OCStr (s, counted, zero, one)
   | "and" -> OAnd
   | "or" -> OOr
   | "xor" -> OXor
